@@ -82,9 +82,19 @@ def _p2(ctx):
     cfg = ctx.cfg(st)
     # write_scale definitions
     wdefs = [(s, v) for s in st.stmts() for t, v, _ in assigned_targets(s) if isinstance(t, ast.Name) and t.id == "write_scale"]
-    ctx.require(len(wdefs) >= 2, R, f"write_scale definitions: {len(wdefs)}")
+    ctx.require(len(wdefs) >= 1, R, f"write_scale definitions: {len(wdefs)}")
     zero_arm = False
+    expanded = []
     for s, v in wdefs:
+        if isinstance(v, ast.IfExp) and norm(v.test) in ("count_writes", "not count_writes"):
+            pos = norm(v.test) == "count_writes"
+            zero_v, other_v = (v.orelse, v.body) if pos else (v.body, v.orelse)
+            is_zero = isinstance(zero_v, ast.Constant) and zero_v.value == 0 and not (isinstance(other_v, ast.Constant) and other_v.value == 0)
+            ctx.check(is_zero, R, st, s, f"`{norm(v)[:80]}` does not make write_scale 0 exactly when writes are not counted", "write_scale = 0 exactly when writes are not counted (conditional expression)")
+            zero_arm = zero_arm or is_zero
+        else:
+            expanded.append((s, v))
+    for s, v in expanded:
         n = cfg.node_of(s)
         conds = [(norm(h.ast.test), lab) for h, lab in cfg.control_conditions(n) if h.kind == "if"]
         is_zero = isinstance(v, ast.Constant) and v.value == 0
@@ -169,9 +179,9 @@ def _p3(ctx):
             every = all(any(a == "read_scale" and pw == 1 for a, pw in mon) for mon, _ in p.monomials())
             ctx.check(every, R, st, s, f"read-action increment without exactly one factor read_scale ({p!r}): values are not converted to actions by values-per-action", "values x read_scale")
     ctx.require(n_inc >= 12, R, f"action increments found: {n_inc}")
-    rs = [v for s in st.stmts() for t, v, _ in assigned_targets(s) if isinstance(t, ast.Name) and t.id == "read_scale"]
-    ok = len(rs) == 1 and norm(rs[0]) == "1 / read_values_per_action"
-    ctx.check(ok, R, st, rs[0] if rs else st.node, "read_scale is not 1 / values_per_action", "read_scale = 1 / values per read action")
+    from .c05 import _scale_action
+    got, site = _scale_action(ctx, st, "read_scale")
+    ctx.check(got == "read" and _scale_action.inverted.get("read_scale", False), R, st, site, f"read_scale is not 1 / values per `read` action (it is derived from `{got}`)", "read_scale = 1 / values per read action")
     # who-may-write total_reads_to_peer
     writers = []
     for rel, m in ctx.repo.modules.items():
